@@ -69,7 +69,7 @@ func genCase(kind string) func(t *rapid.T) Case {
 		default: // C07
 			c.Full = rapid.IntRange(0, 2).Draw(t, "full") == 0
 			c.Delay = rapid.IntRange(0, 2).Draw(t, "delay7") == 0
-			behs = []string{"manual", "manual", "slowcancel", "slowcancel", "untilcancel", "error", "error", "errcanceled", "success"}
+			behs = []string{"manual", "manual", "slowcancel", "slowcancel", "untilcancel", "error", "error", "errcanceled", "success", "nilroutine"}
 			kinds = []string{"setkey", "setkey", "removekey", "synckeys", "setctx", "setctx", "restart", "restart", "reset", "reset", "restartall", "resetall", "finish", "finish", "finish", "finish", "advance", "advance", "probe", "cancelroot"}
 			if rapid.IntRange(0, 3).Draw(t, "hasbo") != 0 {
 				c.Backoff = rapid.SliceOfN(rapid.SampledFrom([]int{10, 10, 25, 50, -1, 0}), 1, 3).Draw(t, "bo")
